@@ -44,10 +44,11 @@ theorem evidence_is_sum_of_recorded_ratios_resume {k : Kit P S} {cfg : SmcCfg S}
     r.logZ = k.sumS r.st.hist.ratio ∧ r.logZerr = k.rootSumS r.st.hist.var :=
   runFrom_evidence h
 
-/-- the evidence stored in the forced final checkpoint is the returned one -/
+/-- the forced final checkpoint stores the returned evidence and the final history -/
 theorem final_ckpt_evidence {k : Kit P S} {cfg : SmcCfg S} {st : St P S} {rest : List (Step P)}
     {r : Result P S} (h : finish k cfg st rest = some r) :
-    ∀ c ∈ r.st.ckpts, c ∈ st.ckpts ∨ c.logZ = some r.logZ := by
+    ∀ c ∈ r.st.ckpts, c ∈ st.ckpts ∨
+      (c.logZ = some r.logZ ∧ c.hist = st.hist ∧ c.iter = st.iter ∧ c.beta = st.beta) := by
   intro c hc
   rcases finish_some h with ⟨-, rfl⟩ | ⟨-, s, rest', -, rfl⟩
   · simp only [finishGo] at hc ⊢
@@ -55,14 +56,14 @@ theorem final_ckpt_evidence {k : Kit P S} {cfg : SmcCfg S} {st : St P S} {rest :
     · exact Or.inl hc
     · rcases List.mem_append.1 hc with hc | hc
       · exact Or.inl hc
-      · rw [List.mem_singleton] at hc; subst hc; exact Or.inr rfl
+      · rw [List.mem_singleton] at hc; subst hc; exact Or.inr ⟨rfl, rfl, rfl, rfl⟩
   · simp only [finishGo] at hc ⊢
     rcases mc_ckpts cfg true (enlarge st s) (some (k.sumS (enlarge st s).hist.ratio)) with e | e <;>
       rw [e] at hc
     · exact Or.inl hc
     · rcases List.mem_append.1 hc with hc | hc
       · exact Or.inl hc
-      · rw [List.mem_singleton] at hc; subst hc; exact Or.inr rfl
+      · rw [List.mem_singleton] at hc; subst hc; exact Or.inr ⟨rfl, rfl, rfl, rfl⟩
 
 /-! ### each recorded ratio is the definition on the stored population before that iteration -/
 
@@ -290,6 +291,33 @@ theorem indep_of_interrupt_and_resume {k : Kit P S} {cfg cfg' : SmcCfg S} (hcfg 
     obtain ⟨r, h1, h2, h3, h4, h5, h6, -⟩ := h.done_right hr'
     exact ⟨r, h1, h2, h3, h4, h5, h6⟩
 
+/-- Resuming from the forced final checkpoint of a finished run (the one that carries an
+    evidence) skips the loop and returns the same evidence, uncertainty and history; the evidence
+    stored in that checkpoint is the returned one. -/
+theorem resume_from_final_checkpoint {k : Kit P S} {cfg : SmcCfg S} {zero : S} {p0 : P}
+    {all all' : List (Step P)} {r r' : Result P S} (h : run k cfg zero p0 all = .done r)
+    {c : Ckpt P S} (hc : c ∈ r.st.ckpts) (hz : c.logZ ≠ none)
+    (h' : resume k cfg c all' = .done r') :
+    c.logZ = some r.logZ ∧ r'.logZ = r.logZ ∧ r'.logZerr = r.logZerr ∧
+    r'.st.hist = r.st.hist ∧ r'.st.iter = r.st.iter := by
+  obtain ⟨st, rest, hr, hf⟩ := run_done_on_the_way h
+  rcases final_ckpt_evidence hf c hc with hin | ⟨hz', hh, hi, -⟩
+  · exact absurd (ckpt_logZ_none hr.reach c hin) hz
+  · have hflag := flag_false_of_stopped hr c hh hi
+    unfold resume at h'
+    rw [hflag] at h'
+    rcases runFrom_done h' with ⟨h0, -⟩ | ⟨-, hf'⟩
+    · cases h0
+    · obtain ⟨-, -, z1, z2⟩ := finish_evidence hf
+      obtain ⟨-, -, z1', z2'⟩ := finish_evidence hf'
+      obtain ⟨e1, e2, -⟩ := finish_hist hf
+      obtain ⟨e1', e2', -⟩ := finish_hist hf'
+      refine ⟨hz', ?_, ?_, ?_, ?_⟩
+      · rw [z1, z1']; show k.sumS c.hist.ratio = _; rw [hh]
+      · rw [z2, z2']; show k.rootSumS c.hist.var = _; rw [hh]
+      · rw [e1, e1']; exact hh
+      · rw [e2, e2']; exact hi
+
 /-! ### 12. no dependence on the final enlargement -/
 
 /-- configurations that differ at most in `n_final_samples` -/
@@ -401,5 +429,49 @@ example : CfgSimF toyCfg { toyCfg with nFinal := some 6 } := cfgSimF_nFinal _ _
 
 example : ∃ cs, run toyKit toyCfg 0 0 (toySteps.take 2) = .interrupted cs ∧ cs.length = 2 :=
   ⟨_, rfl, rfl⟩
+
+/-! ### the pinned resume path did change the evidence (negative results, concrete instances) -/
+
+/-- a schedule whose step depends on the (adaptive) minimum step: `β' = β + 1 + m`, `m' = m + 1` -/
+def toyKit2 : Kit Nat Nat :=
+  { toyKit with nextBeta := fun _ b m => .ok (b + 1 + m, m + 1), isOne := fun b => decide (3 ≤ b) }
+
+/-- the pinned `sample(resume_from=…)`: pinned restore, pinned loop flag -/
+def resumePinned (k : Kit P S) (cfg : SmcCfg S) (c : Ckpt P S) (allSteps : List (Step P)) : RunOut P S :=
+  runFrom k cfg (resumeLoopFlagPinned k c) (restorePinned cfg c) (allSteps.drop c.consumed)
+
+/-- evidence of: the uninterrupted run; the run interrupted after `j` steps and resumed from the
+    newest checkpoint with the fixed code; the same with the pinned code -/
+def threeWays (k : Kit Nat Nat) (cfg : SmcCfg Nat) (steps : List (Step Nat)) (j : Nat) :
+    Option Nat × Option Nat × Option Nat :=
+  let ev (o : RunOut Nat Nat) : Option Nat := match o with | .done r => some r.logZ | _ => none
+  let c? := match run k cfg 0 0 (steps.take j) with
+    | .interrupted cs => cs.getLast?
+    | _ => none
+  (ev (run k cfg 0 0 steps),
+   (match c? with | some c => ev (resume k cfg c steps) | none => none),
+   (match c? with | some c => ev (resumePinned k cfg c steps) | none => none))
+
+/-- the pinned restore re-initialised the minimum step, so the resumed run chose other
+    temperatures and returned another evidence; the fixed one returns the uninterrupted value -/
+theorem pinned_restore_changes_evidence :
+    threeWays toyKit2 toyCfg toySteps 1 = (some 11, some 11, some 22) := by
+  rfl
+
+/-- the pinned loop flag ignored the step cap, so a run resumed from the checkpoint taken at the
+    cap performed one more iteration and returned another evidence -/
+theorem pinned_flag_changes_evidence :
+    (match run toyKit { toyCfg with maxSteps := some 2 } 0 0 toySteps with
+      | .done r =>
+        (match r.st.ckpts.getLast? with
+          | some c =>
+            (match resume toyKit { toyCfg with maxSteps := some 2 } c toySteps,
+                   runFrom toyKit { toyCfg with maxSteps := some 2 } (resumeLoopFlagPinned toyKit c)
+                     (restore c) (toySteps.drop c.consumed) with
+              | .done r1, .done r2 => some (r.logZ, r.st.iter, r1.logZ, r1.st.iter, r2.logZ, r2.st.iter)
+              | _, _ => none)
+          | none => none)
+      | _ => none) = some (10, 2, 10, 2, 21, 3) := by
+  rfl
 
 end C08
